@@ -220,3 +220,17 @@ Example C14_count_terminates_example :
   Forall line_ok lines /\ Forall single_star lines /\ map is_termb lines = [false; false; true; false; true; false] /\
   count_terminates (join_nl lines) = 2%nat.
 Proof. cbv zeta. split; [repeat constructor|]. split; [repeat constructor|]. vm_compute. auto. Qed.
+
+(* ---- the number of arrows (detail::count_transitions) ---- *)
+From Msm Require Import Lemmas_PumlTrans.
+
+(* count_transitions of a description is the number of its lines that contain an arrow (lines with at most one arrow
+   each: one_arrow), for every number of lines of every length.  create_transition_table builds
+   count_transitions - count_inits - count_terminates rows and fetches row t with parse_stt<t>: with the three counting
+   theorems and C14_parse_stt_selects_the_transition_lines every function that decides which lines become rows is
+   characterised for all inputs. *)
+Theorem C14_count_transitions_exact : forall lines,
+  Forall line_ok lines -> Forall one_arrow lines -> size (join_nl lines) < npos ->
+  count_transitions (join_nl lines) = length (filter has_arrow lines).
+Proof. exact count_transitions_exact. Qed.
+Print Assumptions C14_count_transitions_exact.
